@@ -61,19 +61,19 @@ Proof. rewrite app_nth2 by lia. rewrite Nat.sub_diag. reflexivity. Qed.
 (* ---- the node function ----------------------------------------------------------------------------- *)
 Lemma chk_val_nonneg k args v : chk k args = RVal v -> 0 <= v.
 Proof.
-  unfold chk. destruct (existsb _ args); [discriminate|]. intros H. inversion H.
+  unfold chk. destruct (existsb (fun a => a <? 0) args); [repeat destruct (existsb _ args); discriminate|]. intros H. inversion H.
   apply Z.mod_pos_bound. reflexivity.
 Qed.
 Lemma chk_val_args k args v : chk k args = RVal v -> forall a, In a args -> 0 <= a.
 Proof.
-  unfold chk. destruct (existsb _ args) eqn:E; [discriminate|]. intros _ a Ha.
+  unfold chk. destruct (existsb (fun a => a <? 0) args) eqn:E; [repeat destruct (existsb _ args); discriminate|]. intros _ a Ha.
   destruct (Z.ltb_spec a 0); [|assumption].
   assert (existsb (fun a => a <? 0) args = true); [|congruence].
   apply existsb_exists. exists a. split; [assumption|]. apply Z.ltb_lt. assumption.
 Qed.
 Lemma chk_nonneg_val k args : (forall a, In a args -> 0 <= a) -> exists v, chk k args = RVal v.
 Proof.
-  intros H. unfold chk. destruct (existsb _ args) eqn:E; [|eauto].
+  intros H. unfold chk. destruct (existsb (fun a => a <? 0) args) eqn:E; [|eauto].
   apply existsb_exists in E. destruct E as [a [Ha Hl]]. apply Z.ltb_lt in Hl. specialize (H a Ha). lia.
 Qed.
 
@@ -116,7 +116,7 @@ Section Spec.
     match n with
     | Leaf k i _ =>
         match all_some (map (dval penv douts) i) with
-        | Some args => match chk k args with RVal v => Some v | RRaise => None end
+        | Some args => match chk k args with RVal v => Some v | RRaise _ => None end
         | None => None
         end
     | Macro i r _ kids =>
@@ -276,7 +276,7 @@ Section Spec.
       destruct x as [|e|].
       + specialize (IH' (S idx) (os ++ [out_of kid']) (oks ++ [true]) errs).
         destruct (loopF V R resume p (S idx) rest _ _ errs) as [[rest' e2] lr]. cbn in *. congruence.
-      + destruct (resume || _).
+      + destruct (resume || _ || _).
         * cbn. congruence.
         * specialize (IH' (S idx) (os ++ [out_of kid']) (oks ++ [false]) true).
           destruct (loopF V R resume p (S idx) rest _ _ true) as [[rest' e2] lr]. cbn in *. congruence.
@@ -525,10 +525,10 @@ Section Spec.
 
   (* a raising call has a negative unconnected input: everything else it sees is a function result *)
   Lemma raise_isbad penv douts k i args :
-    nonneg penv -> nonneg douts -> all_some (map (cval penv douts) i) = Some args -> chk k args = RRaise -> isbad i = true.
+    nonneg penv -> nonneg douts -> forall e, all_some (map (cval penv douts) i) = Some args -> chk k args = RRaise e -> isbad i = true.
   Proof.
-    intros Np Nd HA HR. apply all_some_map in HA.
-    unfold chk in HR. destruct (existsb _ args) eqn:E; [|discriminate]. apply existsb_exists in E.
+    intros Np Nd e HA HR. apply all_some_map in HA.
+    unfold chk in HR. destruct (existsb (fun a => a <? 0) args) eqn:E; [|discriminate]. clear HR. apply existsb_exists in E.
     destruct E as [a [Ha Hl]]. apply Z.ltb_lt in Hl.
     assert (In (Some a) (map (cval penv douts) i)) as Hi by (rewrite HA; apply in_map; exact Ha).
     apply in_map_iff in Hi. destruct Hi as [x [Ex Hx]]. unfold isbad. apply existsb_exists. exists x. split; [exact Hx|].
@@ -542,7 +542,7 @@ Section Spec.
     exists v, chk k args = RVal v.
   Proof.
     intros Np Nd HA Hb. destruct (chk k args) eqn:E; [eauto|].
-    rewrite (raise_isbad penv douts k i args) in Hb; auto. discriminate.
+    rewrite (raise_isbad penv douts k i args Np Nd e HA E) in Hb. discriminate.
   Qed.
 
   Lemma den_nonneg n : forall penv douts v, den penv douts n = Some v -> 0 <= v.
@@ -832,7 +832,7 @@ Section Spec.
             destruct (PEx e eq_refl) as (K1 & K2 & K3).
             destruct (rest_pushed rest (acc ++ [den di acc kid]) HWr HCr HGr) as (R1 & R2 & R3).
             cbn [orb].
-            destruct (ups_of (inp_of kid)) as [|u0 ur] eqn:Eu.
+            destruct (is_intr e || match ups_of (inp_of kid) with [] => true | _ :: _ => false end) eqn:Eu.
             -- (* a starting node: the exception leaves at once *)
                unfold LPost. cbn [goodkF goodk allk lwk kids_where].
                fold (lwk done p (S idx) (map (recv_push pu') rest)). rewrite lwk_map_recv.
@@ -924,7 +924,7 @@ Section Spec.
     - destruct (V (p ++ [idx]) os kid) as [[kid' e1] x]. destruct x as [|e|].
       + specialize (IH (S idx) (os ++ [out_of kid']) (oks ++ [true]) errs).
         destruct (loopF V R resume p (S idx) rest _ _ errs) as [[rest' e2] lr]. cbn in *. congruence.
-      + destruct (resume || _).
+      + destruct (resume || _ || _).
         * cbn. rewrite map_length. reflexivity.
         * specialize (IH (S idx) (os ++ [out_of kid']) (oks ++ [false]) true).
           destruct (loopF V R resume p (S idx) rest _ _ true) as [[rest' e2] lr]. cbn in *. congruence.
@@ -977,17 +977,17 @@ Section Spec.
           split; [destruct (cut_here cut p) eqn:Ecut; [intros _; split; [apply (cut_here_some _ _ Ecut)|auto]|discriminate]|].
           split; [destruct (cut_here cut p); reflexivity|].
           split; [apply incl_refl|]. intros a Ha. exact Ha.
-        * assert (Hb : isbad i0 = true) by (apply (raise_isbad penv douts k i0 args Np Nd HA0 HK)).
+        * assert (Hb : isbad i0 = true) by (apply (raise_isbad penv douts k i0 args Np Nd e HA0 HK)).
           assert (HP : forall ev r, calls ev = [p] ->
                        (r = RCut /\ cut_here cut p = true /\ saves ev = []) \/
-                       (r = RExc EUser /\ saves ev = if is_root p then [(p, Leaf k i (st_failed st (outv st)))] else []) ->
+                       (r = RExc e /\ saves ev = if is_root p then [(p, Leaf k i (st_failed st (outv st)))] else []) ->
                        Post cut p penv douts (Leaf k i0 st) (Leaf k i (st_failed st (outv st)), ev, r)).
           { intros ev r Hc Hr. unfold Post, out_of, mirror, st_failed. cbn [Good inp_of failed_ok clean complete st_of outputs dtree leaves_where
                                              cached failed running outv nbf norun].
             unfold undone, done. rewrite EC, Hc, Fb, Hb. cbn [is_some negb andb].
             split; [exact I|]. split; [exact Fm|]. split; [auto|].
             split; [destruct Hr as [[-> _]|[-> _]]; discriminate|].
-            split; [intros e _; repeat split; auto|].
+            split; [intros e1 _; repeat split; auto|].
             split; [destruct Hr as [[-> [Hc' _]]|[-> _]]; [intros _; split; [apply (cut_here_some _ _ Hc')|auto]|discriminate]|].
             split; [destruct Hr as [[-> [_ Hs']]|[-> Hs']]; rewrite Hs'; unfold st_failed; rewrite ?EC; reflexivity|].
             split; [apply incl_refl|]. apply incl_nil_l. }
